@@ -14,10 +14,14 @@ open Whawty Whawty.Sasl Whawty.SaslServer
 theorem cb_at_most_once_exact_fields (clip : Bool) (cs : List Bytes) (cb : Request → CbOutcome) (t : Bytes) :
     (handle clip cs cb t).cbCalls.length ≤ 1 ∧
     ∀ q ∈ (handle clip cs cb t).cbCalls, ∃ n, Request.decode cs.flatten = some (q, n) := by
-  simp only [handle, C13.fragment_independent_request]
-  cases h : Request.decode cs.flatten with
+  simp only [handle]
+  cases h : Request.decodeChunked cs with
   | none => simp
-  | some qn => obtain ⟨q, n⟩ := qn; simp
+  | some qn =>
+    obtain ⟨q, n⟩ := qn
+    have := C13.chunked_result_is_stream_result cs (q, n) h
+    simp only [List.length_cons, List.length_nil, Nat.le_refl, List.mem_singleton, true_and]
+    intro q' hq'; subst hq'; exact ⟨n, this⟩
 
 /-- Verdict the server is supposed to convey. -/
 def verdict (cs : List Bytes) (cb : Request → CbOutcome) : Bool :=
@@ -25,9 +29,26 @@ def verdict (cs : List Bytes) (cb : Request → CbOutcome) : Bool :=
   | some (q, _) => (cb q).ok && (cb q).err.isNone
   | none => false
 
-theorem response_result (clip : Bool) (cs : List Bytes) (cb : Request → CbOutcome) (t : Bytes) :
+/-- A positive response is built only from a decoded request the callback approved. -/
+theorem response_true (clip : Bool) (dec : Option (Request × Nat)) (cb : Request → CbOutcome) (t : Bytes)
+    (h : (response clip dec cb t).result = true) :
+    ∃ q n, dec = some (q, n) ∧ (cb q).ok = true ∧ (cb q).err = none := by
+  cases dec with
+  | none => cases clip <;> simp [response] at h
+  | some qn =>
+    obtain ⟨q, n⟩ := qn
+    cases he : (cb q).err with
+    | some e => cases clip <;> simp [response, he] at h
+    | none =>
+      refine ⟨q, n, rfl, ?_, he⟩
+      cases clip <;> simpa [response, he] using h
+
+/-- (`hsf`: the connection's reads are those of a reader that makes progress — at most 100
+    zero-length reads in a row; a socket read never returns zero bytes without an error.) -/
+theorem response_result (clip : Bool) (cs : List Bytes) (cb : Request → CbOutcome) (t : Bytes)
+    (hsf : stallFree 0 cs = true) :
     (response clip (Request.decodeChunked cs) cb t).result = verdict cs cb := by
-  simp only [response, verdict, C13.fragment_independent_request]
+  simp only [response, verdict, C13.fragment_independent_request _ hsf]
   cases h : Request.decode cs.flatten with
   | none => cases clip <;> simp
   | some qn =>
@@ -52,13 +73,13 @@ theorem one_reply_then_close (cs : List Bytes) (cb : Request → CbOutcome) (t :
 /-- Repaired server: the reply is decodable by the bundled Go client and by the PAM module,
     and both obtain the verdict (positive only if the request decoded completely and the
     callback approved without error). -/
-theorem reply_decodable (cs : List Bytes) (cb : Request → CbOutcome) (t : Bytes) :
+theorem reply_decodable (cs : List Bytes) (cb : Request → CbOutcome) (t : Bytes) (hsf : stallFree 0 cs = true) :
     ∀ reply ∈ (handle true cs cb t).replies,
       (∃ m, Response.decode reply = some ⟨verdict cs cb, m⟩) ∧
       Pam.verdictOfReply reply = (if verdict cs cb then Pam.PAM_SUCCESS else Pam.PAM_AUTH_ERR) := by
   intro reply hmem
   have h256 := clipped_text_le (Request.decodeChunked cs) cb t
-  have hres := response_result true cs cb t
+  have hres := response_result true cs cb t hsf
   simp only [handle] at hmem
   rw [encode_of_le _ (by unfold maxLen at h256; omega)] at hmem
   simp only [List.mem_singleton] at hmem
@@ -76,8 +97,8 @@ theorem positive_only_if (clip : Bool) (cs : List Bytes) (cb : Request → CbOut
     ∀ reply ∈ (handle clip cs cb t).replies, Response.decode reply = some ⟨true, m⟩ →
       ∃ q n, Request.decode cs.flatten = some (q, n) ∧ (cb q).ok = true ∧ (cb q).err = none := by
   intro reply hmem hdec
-  have hres := response_result clip cs cb t
   simp only [handle] at hmem
+  have key := response_true clip (Request.decodeChunked cs) cb t
   generalize response clip (Request.decodeChunked cs) cb t = r at *
   have htrue : r.result = true := by
     by_cases h65 : r.text.length ≤ 65535
@@ -92,28 +113,24 @@ theorem positive_only_if (clip : Bool) (cs : List Bytes) (cb : Request → CbOut
         simp at hdec
     · rw [encode_none_of_gt r (by omega)] at hmem
       simp at hmem
-  rw [hres] at htrue
-  simp only [verdict] at htrue
-  split at htrue
-  · rename_i q n hq
-    simp only [Bool.and_eq_true, Option.isNone_iff_eq_none] at htrue
-    exact ⟨q, n, hq, htrue.1, htrue.2⟩
-  · simp at htrue
+  obtain ⟨q, n, hq, hok, herr⟩ := key htrue
+  exact ⟨q, n, C13.chunked_result_is_stream_result cs (q, n) hq, hok, herr⟩
 
 /-- The server's behaviour depends on the client's stream only through the bytes, not
     through their fragmentation or write timing. -/
 theorem fragmentation_irrelevant (clip : Bool) (cs ds : List Bytes) (cb : Request → CbOutcome) (t : Bytes)
-    (h : cs.flatten = ds.flatten) : handle clip cs cb t = handle clip ds cb t := by
-  simp only [handle, C13.fragment_independent_request, h]
+    (h : cs.flatten = ds.flatten) (hc : stallFree 0 cs = true) (hd : stallFree 0 ds = true) :
+    handle clip cs cb t = handle clip ds cb t := by
+  simp only [handle, C13.fragment_independent_request _ hc, C13.fragment_independent_request _ hd, h]
 
 /-- Pinned code (no clipping), defect D3: a message longer than 253 bytes gives a reply the
     Go client cannot decode; one longer than 65532 bytes gives no reply at all. -/
 theorem pinned_reply_undecodable (cs : List Bytes) (cb : Request → CbOutcome) (t : Bytes)
     (q : Request) (n : Nat) (hq : Request.decode cs.flatten = some (q, n)) (he : (cb q).err = none)
-    (hlong : maxMsg < (cb q).msg.length) :
+    (hlong : maxMsg < (cb q).msg.length) (hsf : stallFree 0 cs = true) :
     ∀ reply ∈ (handle false cs cb t).replies, Response.decode reply = none := by
   intro reply hmem
-  simp only [handle, response, C13.fragment_independent_request, hq, he] at hmem
+  simp only [handle, response, C13.fragment_independent_request _ hsf, hq, he] at hmem
   generalize hr : (Response.mk (cb q).ok (cb q).msg) = r at hmem
   have hmsg : maxMsg < r.message.length := by rw [← hr]; exact hlong
   have hne : r.message ≠ [] := by intro h; rw [h] at hmsg; simp at hmsg
@@ -129,8 +146,8 @@ theorem pinned_reply_undecodable (cs : List Bytes) (cb : Request → CbOutcome) 
 
 theorem pinned_no_reply (cs : List Bytes) (cb : Request → CbOutcome) (t : Bytes)
     (q : Request) (n : Nat) (hq : Request.decode cs.flatten = some (q, n)) (he : (cb q).err = none)
-    (hlong : 65532 < (cb q).msg.length) : (handle false cs cb t).replies = [] := by
-  simp only [handle, response, C13.fragment_independent_request, hq, he]
+    (hlong : 65532 < (cb q).msg.length) (hsf : stallFree 0 cs = true) : (handle false cs cb t).replies = [] := by
+  simp only [handle, response, C13.fragment_independent_request _ hsf, hq, he]
   generalize hr : (Response.mk (cb q).ok (cb q).msg) = r
   have hmsg : 65532 < r.message.length := by rw [← hr]; exact hlong
   have hne : r.message ≠ [] := by intro h; rw [h] at hmsg; simp at hmsg
@@ -141,6 +158,6 @@ theorem pinned_no_reply (cs : List Bytes) (cb : Request → CbOutcome) (t : Byte
 /- Non-vacuity: a fragmented well-formed request, approving callback. -/
 example : (handle true [[0, 1, 97, 0], [1, 98, 0, 0, 0], [0]] (fun _ => ⟨true, [104, 105], none⟩) []).replies
     = [[0, 5, 79, 75, 32, 104, 105]] := by
-  simp only [handle, C13.fragment_independent_request]; decide
+  simp only [handle, C13.fragment_independent_request _ (show stallFree 0 [[0, 1, 97, 0], [1, 98, 0, 0, 0], [0]] = true by decide)]; decide
 
 end Whawty.SaslServer.C05
